@@ -49,7 +49,7 @@ fn token_of(t: u8) -> Vec<u8> {
     }
 }
 
-const P3: &str = "v";
+const P3: &str = "/t"; // leading empty segment: differs from P1 only by it
 
 fn actions(mode: u8) -> Vec<Act> {
     // mode 0: 2 endpoints x 2 tokens x 2 paths; 1: 3 endpoints x 3 tokens on ONE observed path; 2: 2 endpoints x
@@ -121,7 +121,14 @@ fn snapshot(s: &Subject<Ep>) -> Snap {
 fn request(ep: u32, tok: &[u8], path: &str, mid: u16) -> CoapRequest<Ep> {
     let mut r: CoapRequest<Ep> = CoapRequest::new();
     r.source = Some(Ep(ep));
-    r.set_path(path);
+    if path.is_empty() {
+        r.set_path(path);
+    } else {
+        // segment by segment (set_path would strip a leading slash; "/t" must stay ["", "t"])
+        for seg in path.split('/') {
+            r.message.add_option(coap_lite::CoapOption::UriPath, seg.as_bytes().to_vec());
+        }
+    }
     r.message.set_token(tok.to_vec());
     r.message.header.message_id = mid;
     r
@@ -536,6 +543,54 @@ fn notifications(ctx: &Ctx, rep: &mut Report) {
     );
 }
 
+/// 2^24 + 8 notification rounds on one observed resource: the sequence number grows by exactly one every time
+/// (also across the 24-bit boundary of the Observe option's wire size).
+fn long_run(ctx: &Ctx, rep: &mut Report) {
+    let n = 2u64;
+    ctx.family(
+        rep,
+        "long-run-sequence",
+        "16 777 224 (2^24 + 8) consecutive rounds on one observed resource, non-confirmable / confirmable-with-acknowledgement: sequence +1 on every round, observer stays",
+        n,
+        true,
+        |i, rep| {
+            let con = i == 1;
+            let mut s: Subject<Ep> = Subject::default();
+            s.set_unacknowledged_limit(3);
+            s.register(&request(1, &[7], P1, 1));
+            let rounds: u32 = (1 << 24) + 8;
+            let ack = request(1, &[], "", 77);
+            for r in 0..rounds {
+                let before = s.get_resource(P1).map(|x| x.sequence);
+                if let Err(pn) = guard(|| s.resource_changed(P1, 77, con)) {
+                    rep.violation(viol("long-run-sequence", i, format!("C15/panic@{}", pn.site()), format!("round {}: {}", r + 1, pn.message), Json::obj().set("round", r + 1)));
+                    return;
+                }
+                if con {
+                    s.acknowledge(&ack);
+                }
+                let after = s.get_resource(P1).map(|x| (x.sequence, x.observers.len()));
+                if after != before.map(|b| (b.wrapping_add(1), 1)) || before.map(|b| b == u32::MAX).unwrap_or(true) {
+                    rep.violation(viol(
+                        "long-run-sequence",
+                        i,
+                        "C15/sequence-not-incremented-by-one",
+                        format!("round {}: sequence went from {:?} to {:?} (sequence, observers)", r + 1, before, after),
+                        Json::obj().set("round", r + 1).set("confirmable", con),
+                    ));
+                    return;
+                }
+                if r & 0xFFFF == 0 {
+                    mccore::guard::tick();
+                }
+            }
+            rep.count("long-run-ok");
+            rep.bucket(&("long", con));
+            rep.sample(Json::obj().set("family", "long-run-sequence").set("rounds", rounds).set("confirmable", con));
+        },
+    );
+}
+
 pub fn run_c15(ctx: &Ctx, rep: &mut Report) {
     for l in [0u8, 1, 2] {
         bfs_limit(Prop::C15, ctx, rep, l, false, 0);
@@ -549,7 +604,8 @@ pub fn run_c15(ctx: &Ctx, rep: &mut Report) {
         bfs_limit(Prop::C15, ctx, rep, 1, false, 2);
     }
     directed(ctx, rep);
+    long_run(ctx, rep);
     notifications(ctx, rep);
     rep.assume("refmodel::subject is the trusted reference; the sequence number of a round nobody observes follows the implementation");
-    rep.assume("the 32-bit sequence counter itself is not driven to its limit (2^32 rounds); histories are bounded at 600 rounds per directed script");
+    rep.assume("the 32-bit sequence counter itself is not driven to its limit (2^32 rounds); directed scripts have 600 rounds; the long-run family has 2^24 + 8 rounds");
 }
